@@ -132,6 +132,23 @@ def content(seed, cid, length):
         return b""
     if cid == "zero":
         return bytes(length)          # all-zero content (creation checks only)
+    if isinstance(cid, str) and cid.startswith("holes"):
+        # mostly zero bytes with short data islands that start on 4 KiB page
+        # boundaries at every residue modulo the 16 KiB block (written with
+        # holes when the world asks for sparse files)
+        buf = bytearray(length)
+        j = 0
+        while True:
+            off = 4096 * (5 + 13 * j)
+            if off >= length:
+                break
+            isl = content(seed, f"{cid}:{j}", min(3000 + 700 * (j % 3),
+                                                  length - off))
+            buf[off:off + len(isl)] = isl
+            j += 1
+        if length:
+            buf[-1] = 7
+        return bytes(buf)
     if isinstance(cid, str) and cid.startswith("lit:"):
         data = bytes.fromhex(cid[4:])   # literal bytes (witness contents)
         if len(data) != length:
@@ -204,13 +221,24 @@ def cleanup_scratch():
     _scratch_root = None
 
 
-def write_file(path, data):
+def write_file(path, data, sparse=False):
     os.makedirs(os.path.dirname(path), exist_ok=True)
     with open(path, "wb") as f:
-        f.write(data)
+        if not sparse:
+            f.write(data)
+            return
+        # leave every all-zero 4 KiB page unwritten (a hole)
+        zero = bytes(4096)
+        for off in range(0, len(data), 4096):
+            page = data[off:off + 4096]
+            if page != zero[:len(page)]:
+                f.seek(off)
+                f.write(page)
+        f.truncate(len(data))
 
 
-def materialize(files, parent, name=ROOT_NAME, shape=None, hardlink=False):
+def materialize(files, parent, name=ROOT_NAME, shape=None, hardlink=False,
+                sparse=False):
     """Create parent/name as described by files [(rel, bytes)]; return its path.
     With hardlink=True, non-empty files with equal bytes are further names
     (hard links) of one inode instead of separate files."""
@@ -218,7 +246,7 @@ def materialize(files, parent, name=ROOT_NAME, shape=None, hardlink=False):
     for rel in EMPTY_DIRS.get(shape, ()):
         os.makedirs(os.path.join(root, *rel), exist_ok=True)
     if len(files) == 1 and files[0][0] == ():
-        write_file(root, files[0][1])
+        write_file(root, files[0][1], sparse)
         return root
     os.makedirs(root, exist_ok=True)
     first = {}
@@ -228,7 +256,7 @@ def materialize(files, parent, name=ROOT_NAME, shape=None, hardlink=False):
             os.makedirs(os.path.dirname(p), exist_ok=True)
             os.link(first[data], p)
             continue
-        write_file(p, data)
+        write_file(p, data, sparse)
         first.setdefault(data, p)
     return root
 
